@@ -5,7 +5,8 @@
 
   * `C07_export_sound`                    validate = ok → dump = ok bs → Sound bs   (every metainfo)
   * `C07_validate_only_metainfo_error`    validate raises MetainfoError and nothing else outside the
-                                          classes of the open findings D07f / D07j
+                                          class of the open finding D07f (numbers of any size:
+                                          D07j is repaired in /repo 3420ff7, regression `example`s)
   * `C07_only_metainfo_error_{dump,infohash,magnet}_{full,partial,counterexample}`
   * `C07_ready_iff`, `C07_ready_false_iff`, `C07_convert_only_metainfo_error`,
     `C07_{dump,infohash}_error_from_validate`, `C07_magnet_error_from_infohash`
@@ -79,23 +80,24 @@ example : ∃ bs, validate (fun _ => true) noPath multiWitness = .ok () ∧
 
 /-! ### only MetainfoError -/
 
-/-- **`validate()` raises MetainfoError and nothing else** outside the classes of the open findings
+/-- **`validate()` raises MetainfoError and nothing else** outside the class of the open finding
     D07f (`info['files']` is a mapping; a content path is set and a `path` is not a non-empty
-    sequence of `str`) and D07j (the numbers in the metainfo add up to more than 4300 digits, so
-    an error message can hit the int→str limit) — the explicit decidable predicate
-    `outsideD07fD07j`, which the driver evaluates as `hypThm`. -/
+    sequence of `str`) — the explicit decidable predicate `outsideD07f`, which the driver
+    evaluates as `hypThm`.  There is no bound on the numbers in the metainfo: since /repo 3420ff7
+    the messages are built with `safe_repr`, so integers beyond the int→str limit of 4300 digits
+    (former finding D07j) give MetainfoError like every other offending value. -/
 theorem C07_validate_only_metainfo_error (urlOk : Bytes → Bool) (fs : FsOracle) (md : Items)
-    (ho : outsideD07fD07j fs md = true) :
+    (ho : outsideD07f fs md = true) :
     validate urlOk fs md = .ok () ∨ validate urlOk fs md = .error .metainfo := by
-  obtain ⟨h1, h2, h3⟩ := outside_spec fs ho
+  obtain ⟨h1, h2⟩ := outside_spec fs ho
   cases h : validate urlOk fs md with
   | ok u => exact .inl rfl
-  | error e => exact .inr (by rw [validate_err urlOk fs h1 h2 h3 h])
+  | error e => exact .inr (by rw [validate_err urlOk fs h1 h2 h])
 
 /-- non-vacuity: the valid witnesses and a metainfo that fails validation are inside the predicate -/
-example : outsideD07fD07j noPath validWitness = true ∧ outsideD07fD07j noPath multiWitness = true ∧
-    outsideD07fD07j { hasPath := true, rootIsFile := true, rootSize := 5 } validWitness = true ∧
-    outsideD07fD07j noPath [(.str "info", .list [.int 1])] = true := by decide +kernel
+example : outsideD07f noPath validWitness = true ∧ outsideD07f noPath multiWitness = true ∧
+    outsideD07f { hasPath := true, rootIsFile := true, rootSize := 5 } validWitness = true ∧
+    outsideD07f noPath [(.str "info", .list [.int 1])] = true := by decide +kernel
 
 /-- The conversion half (`convert()` + `bencode.encode`, i.e. `dump(validate=False)`) raises the
     metainfo error and nothing else — for every metainfo: non-str keys at any depth, None, NaN,
@@ -142,17 +144,79 @@ def d07fWitness : Items :=
      (.str "pieces", .bytes (List.replicate 20 120)),
      (.str "files", .dict [(.int 0, .dict [(.str "length", .int 5), (.str "path", .list [.str "a"])])])])]
 
-/-- D07j witness: `announce = 10**4300` (an `int`, so the rule fails; its `repr` raises) -/
+/-- former D07j witness: `announce = 10**4300` (an `int`, so the rule fails; `repr` of the value
+    raises ValueError, `safe_repr` does not) -/
 def d07jWitness : Items := validWitness ++ [(.str "announce", .int (10 ^ 4300))]
+
+/-- former D07j witness: the offending value *contains* an integer beyond the int→str limit -/
+def d07jNestedWitness : Items :=
+  validWitness ++ [(.str "announce", .list [.int 1, .list [.int (10 ^ 4300)]])]
+
+/-- former D07j witness: `length = 10**4305` — every rule passes, the piece count is wrong and
+    the message has to print the expected count, an integer of 4301 digits -/
+def d07jLengthWitness : Items :=
+  [(.str "info", .dict [(.str "name", .str "a"), (.str "piece length", .int 16384),
+     (.str "pieces", .bytes (List.replicate 20 120)), (.str "length", .int (10 ^ 4305))])]
+
+/-- former D07j witness for the "Mismatching file sizes" message: `length = piece length =
+    16384·10**4300` validates without a content path; with one (a 5-byte file) the size differs -/
+def d07jSizeWitness : Items :=
+  [(.str "info", .dict [(.str "name", .str "a"), (.str "piece length", .int (16384 * 10 ^ 4300)),
+     (.str "pieces", .bytes (List.replicate 20 120)), (.str "length", .int (16384 * 10 ^ 4300))])]
 
 /-- D07i witness: `url-list = ['nope']` (never validated; the `webseeds` getter raises URLError) -/
 def d07iWitness : Items := validWitness ++ [(.str "url-list", .list [.str "nope"])]
 
-/-- both exclusions of `C07_validate_only_metainfo_error` are necessary: on the witnesses of D07f
-    and D07j `validate` raises something else -/
+/-- D07f witness, second half: a content path is set and a `path` has a `bytes` component -/
+def d07fPathWitness : Items :=
+  [(.str "info", .dict [(.str "name", .str "a"), (.str "piece length", .int 16384),
+     (.str "pieces", .bytes (List.replicate 20 120)),
+     (.str "files", .list [.dict [(.str "length", .int 5), (.str "path", .list [.bytes [102]])]])])]
+
+/-- a content directory in which file 0 exists, is a regular file and has 5 bytes -/
+def dirOracle : FsOracle :=
+  { hasPath := true, rootIsDir := true, files := [{ exists_ := true, isFile := true, size := 5 }] }
+
+/-- a content path that is a 5-byte regular file -/
+def fileOracle : FsOracle := { hasPath := true, rootIsFile := true, rootSize := 5 }
+
+/-- the exclusion of `C07_validate_only_metainfo_error` is necessary, both halves: on the
+    witnesses of D07f `validate` raises something else than MetainfoError -/
 theorem C07_validate_only_metainfo_error_counterexample :
     isInternal (validate (fun _ => false) noPath d07fWitness) = true ∧
-    isInternal (validate (fun _ => false) noPath d07jWitness) = true := by decide +kernel
+    isInternal (validate (fun _ => false) dirOracle d07fPathWitness) = true ∧
+    outsideD07f noPath d07fWitness = false ∧
+    outsideD07f dirOracle d07fPathWitness = false := by
+  decide +kernel
+
+/-- regression of finding D07j (repaired in /repo 3420ff7): the former witnesses are inside the
+    hypothesis of `C07_validate_only_metainfo_error` and `validate` answers MetainfoError -/
+example : outsideD07f noPath d07jWitness = true ∧ outsideD07f noPath d07jNestedWitness = true ∧
+    outsideD07f noPath d07jLengthWitness = true ∧
+    outsideD07f fileOracle d07jSizeWitness = true := by
+  decide +kernel
+
+example : validate (fun _ => false) noPath d07jWitness = .error .metainfo :=
+  eq_of_isMetainfo (by decide +kernel)
+example : validate (fun _ => false) noPath d07jNestedWitness = .error .metainfo :=
+  eq_of_isMetainfo (by decide +kernel)
+example : validate (fun _ => false) noPath d07jLengthWitness = .error .metainfo :=
+  eq_of_isMetainfo (by decide +kernel)
+example : validate (fun _ => false) noPath d07jSizeWitness = .ok () :=
+  isOk_unit (by decide +kernel)
+example : validate (fun _ => false) fileOracle d07jSizeWitness = .error .metainfo :=
+  eq_of_isMetainfo (by decide +kernel)
+/-- … and so do the exports -/
+example : dump (fun _ => false) noPath d07jWitness = .error .metainfo ∧
+    infoBytes (fun _ => false) noPath d07jWitness = .error .metainfo ∧
+    magnet (fun _ => false) noPath d07jWitness = .error .metainfo ∧
+    isReady (fun _ => false) noPath d07jWitness = .ok false ∧
+    dump (fun _ => false) noPath d07jLengthWitness = .error .metainfo ∧
+    dump (fun _ => false) fileOracle d07jSizeWitness = .error .metainfo :=
+  ⟨eq_of_isMetainfo (by decide +kernel), eq_of_isMetainfo (by decide +kernel),
+   eq_of_isMetainfo (by decide +kernel),
+   (C07_ready_false_iff _ _ _).mpr (eq_of_isMetainfo (by decide +kernel)),
+   eq_of_isMetainfo (by decide +kernel), eq_of_isMetainfo (by decide +kernel)⟩
 
 /-! #### dump -/
 
@@ -161,10 +225,10 @@ def C07_only_metainfo_error_dump_full : Prop :=
   ∀ (urlOk : Bytes → Bool) (fs : FsOracle) (md : Items) (e : ErrKind),
     dump urlOk fs md = .error e → e = .metainfo
 
-/-- Proved part: outside the classes of D07f / D07j `dump()` (hence `write()`/`write_stream()`,
-    C17) raises MetainfoError and nothing else. -/
+/-- Proved part: outside the class of D07f (`outsideD07f`; numbers of any size) `dump()` (hence
+    `write()`/`write_stream()`, C17) raises MetainfoError and nothing else. -/
 theorem C07_only_metainfo_error_dump_partial (urlOk : Bytes → Bool) (fs : FsOracle) (md : Items)
-    (e : ErrKind) (ho : outsideD07fD07j fs md = true) (h : dump urlOk fs md = .error e) :
+    (e : ErrKind) (ho : outsideD07f fs md = true) (h : dump urlOk fs md = .error e) :
     e = .metainfo :=
   dump_err urlOk fs ho h
 
@@ -182,19 +246,21 @@ def C07_only_metainfo_error_infohash_full : Prop :=
   ∀ (urlOk : Bytes → Bool) (fs : FsOracle) (md : Items) (e : ErrKind),
     infoBytes urlOk fs md = .error e → e = .metainfo
 
-/-- Proved part: outside the classes of D07f / D07j `infohash` raises MetainfoError and nothing
-    else. -/
+/-- Proved part: outside the class of D07f (`outsideD07f`; numbers of any size) `infohash` raises
+    MetainfoError and nothing else. -/
 theorem C07_only_metainfo_error_infohash_partial (urlOk : Bytes → Bool) (fs : FsOracle) (md : Items)
-    (e : ErrKind) (ho : outsideD07fD07j fs md = true) (h : infoBytes urlOk fs md = .error e) :
+    (e : ErrKind) (ho : outsideD07f fs md = true) (h : infoBytes urlOk fs md = .error e) :
     e = .metainfo :=
   infoBytes_err urlOk fs ho h
 
-/-- finding D07j falsifies the full statement: `announce = 10**4300` ⇒ ValueError -/
+/-- finding D07f falsifies the full statement: a mapping as `files` ⇒ TypeError from the
+    validation `infohash` runs first.  (Until /repo 3420ff7 the D07j witness `announce = 10**4300`
+    was the counterexample here; it is a regression `example` above now.) -/
 theorem C07_only_metainfo_error_infohash_counterexample :
     ¬ C07_only_metainfo_error_infohash_full := by
   intro h
   obtain ⟨e, he, hne⟩ := not_metainfo_of_internal
-    (show isInternal (infoBytes (fun _ => false) noPath d07jWitness) = true by decide +kernel)
+    (show isInternal (infoBytes (fun _ => false) noPath d07fWitness) = true by decide +kernel)
   exact hne (h _ _ _ _ he)
 
 /-! #### magnet -/
@@ -203,17 +269,17 @@ def C07_only_metainfo_error_magnet_full : Prop :=
   ∀ (urlOk : Bytes → Bool) (fs : FsOracle) (md : Items) (e : ErrKind),
     magnet urlOk fs md = .error e → e = .metainfo
 
-/-- Proved part: outside the classes of D07f / D07j and of D07i (`magnetTailOk`: `announce-list`
+/-- Proved part: outside the classes of D07f (`outsideD07f`) and of D07i (`magnetTailOk`: `announce-list`
     is a list of lists of URLs and `url-list` a URL or a list of URLs, so the `trackers` /
     `webseeds` getters accept them) `magnet()` raises MetainfoError and nothing else. -/
 theorem C07_only_metainfo_error_magnet_partial (urlOk : Bytes → Bool) (fs : FsOracle) (md : Items)
-    (e : ErrKind) (ho : outsideD07fD07j fs md = true) (hm : magnetTailOk urlOk md = true)
+    (e : ErrKind) (ho : outsideD07f fs md = true) (hm : magnetTailOk urlOk md = true)
     (h : magnet urlOk fs md = .error e) : e = .metainfo :=
   magnet_err urlOk fs ho hm h
 
 /-- on the D07i witness `magnet()` raises something else than MetainfoError although the
-    metainfo is outside D07f / D07j and `validate()` and `infohash` accept it -/
-theorem C07_magnet_d07i_witness : outsideD07fD07j noPath d07iWitness = true ∧
+    metainfo is outside D07f and `validate()` and `infohash` accept it -/
+theorem C07_magnet_d07i_witness : outsideD07f noPath d07iWitness = true ∧
     validate (fun _ => false) noPath d07iWitness = .ok () ∧
     isInternal (magnet (fun _ => false) noPath d07iWitness) = true := by
   have hv := isOk_unit (show isOk (validate (fun _ => false) noPath d07iWitness) = true by
@@ -244,7 +310,7 @@ theorem C07_only_metainfo_error_magnet_counterexample :
 
 /-- non-vacuity of the partial statements: metainfo inside the predicates whose exports fail
     (with MetainfoError), and one whose exports succeed -/
-example : outsideD07fD07j noPath [(.str "info", .list [.int 1])] = true ∧
+example : outsideD07f noPath [(.str "info", .list [.int 1])] = true ∧
     magnetTailOk (fun _ => false) [(.str "info", .list [.int 1])] = true ∧
     isOk (dump (fun _ => false) noPath [(.str "info", .list [.int 1])]) = false ∧
     isOk (infoBytes (fun _ => false) noPath [(.str "info", .list [.int 1])]) = false ∧
